@@ -148,6 +148,19 @@ class C13(Prop):
         if len(ms) != 1:
             raise X.TieBroken("guard:reframe room test", "cannot locate `if (to + N >= MAX_TEXT - M) return;` of reframe_single_char_input (matched %r)" % (ms,))
         out.append("/-- C: reframe_single_char_input `if (to + N >= MAX_TEXT - M) return;` -/\ndef reframeNeed : Nat := %s\ndef reframeReserve : Nat := %s" % ms[0])
+        # the harness builds its interactive_t by hand, field by field like new_interactive(): a field that
+        # new_interactive() starts to initialise (somebody else's fix) must be added to harness/c13/c13.c: make_user
+        a = src.find('DXALLOC (sizeof (interactive_t), TAG_INTERACTIVE, "new_user_handler")')
+        b = src.find("num_user++;", a)
+        if a < 0 or b < 0:
+            raise X.TieBroken("harness:new_interactive", "cannot locate new_interactive() in src/comm.c")
+        fields = set(re.findall(r"master_ob->interactive->(\w+)", src[a:b])) | set(re.findall(r"all_users\[i\]->(\w+)", src[a:b]))
+        known_fields = {"default_err_message", "ob", "input_to", "iflags", "text", "text_end", "text_start", "snoop_on", "snoop_by",
+                        "last_time", "trace_level", "trace_prefix", "ed_buffer", "message_producer", "message_consumer",
+                        "message_length", "state", "out_of_band", "fd"}
+        if fields - known_fields:
+            raise X.TieBroken("harness:new_interactive", "new_interactive() initialises field(s) %s that harness/c13/c13.c make_user() "
+                              "does not know (0xA5-filled there): add them to make_user()" % sorted(fields - known_fields))
         wsrc = open(os.path.join(E.REPO, "lib/async/console_worker.c"), errors="replace").read()
         ms = re.findall(r"read\(STDIN_FILENO, line_buffer, CONSOLE_MAX_LINE - (\d+)\)", wsrc)
         if len(ms) != 1 or wsrc.count("char line_buffer[CONSOLE_MAX_LINE];") < 1 or wsrc.count("line_buffer[bytes_read] = '\\0';") != 1 \
